@@ -458,7 +458,14 @@ pub fn c10(ctx: &Ctx, rep: &mut Report) {
                 if std::fs::write(&f, &src).is_err() {
                     continue;
                 }
-                let run = if tag % 5 == 0 { cli::fml_run_stdin(&src) } else { cli::fml_run_file(&f) };
+                // the memory flags are inert (C16): a faulting run must end the same way with them
+                let run = if tag % 5 == 0 {
+                    cli::fml_run_stdin(&src)
+                } else if tag % 7 == 0 {
+                    cli::run(cli::Spec::new(&["run", f.to_str().unwrap(), "--heap-log", "/dev/null", "--heap-size", ["1", "0", "1024"][tag % 3]]))
+                } else {
+                    cli::fml_run_file(&f)
+                };
                 cli_budget -= 1;
                 expect_cli(rep, &format!("fault#{}:{}@{}/{}", pi, class, li, pos), "fml run", &run, &out, &replay, class);
                 rep.nontrivial(hash_str(&src));
